@@ -220,7 +220,7 @@ def on_scopes(p, r, exc, acc):
 
 # ------------------------------------------------------------------ reserved names
 RESERVED = ["context", "UNDEFINED", "STOP_RENDERING", "loop", "ordinary"]
-ENTRY = ["render", "render_unicode", "get_def.render", "render_context", "Context()"]
+ENTRY = ["render", "render_unicode", "get_def.render", "render_context", "Context()", "render_context-on-a-used-Context", "render_context-from-inside-a-render"]
 ASSIGN = {
     "block-assignment": "<% NAME = 1 %>x",
     "for-target": "% for NAME in [1]:\nx\n% endfor\n",
@@ -253,6 +253,13 @@ def reserved_case(TPm, RTm, EXCm, name, where, enable_loop):
                 t.get_def("d").render(**kw)
             elif where == "render_context":
                 t.render_context(RTm.Context(io.StringIO()), **kw)
+            elif where == "render_context-on-a-used-Context":
+                ctx = RTm.Context(io.StringIO())
+                t.render_context(ctx)               # the Context is bound to the template from now on
+                t.render_context(ctx, **kw)
+            elif where == "render_context-from-inside-a-render":
+                outer = TPm.Template("${other.render_context(context, **kw) or ''}", enable_loop=enable_loop)
+                outer.render(other=t, kw=kw)
             else:
                 t.render_context(RTm.Context(io.StringIO(), **kw))
         return "ok"
@@ -273,7 +280,7 @@ def on_reserved(p, r, exc, acc):
     if exc is not None:
         acc.candidate(kind="harness-exception", input=None, detail="%s: %s" % (type(exc).__name__, str(exc)[:200]))
         return
-    if r["name"] == "context" and r["where"] == "render_context":
+    if r["name"] == "context" and r["where"].startswith("render_context"):
         acc.counts["render_context(context, context=...) is a Python TypeError (duplicate argument): not asserted"] += 1
         return
     acc.tags["asserted"] += 1
